@@ -149,12 +149,12 @@ func (w *world) apply(o op) outcome {
 	var err error
 	switch o.Kind {
 	case kClaim:
-		err = apph.Tx(h.Ctx(), func(ctx sdk.Context) error {
+		err = apph.Tx(w.msgCtx(), func(ctx sdk.Context) error {
 			_, e := srv.ClaimRewards(ctx, &sctypes.MsgClaimRewards{Sender: h.Accts[o.U].Addr.String(), ValidatorAddress: w.valAddr(o.V)})
 			return e
 		})
 	case kDelegate:
-		err = apph.Tx(h.Ctx(), func(ctx sdk.Context) error {
+		err = apph.Tx(w.msgCtx(), func(ctx sdk.Context) error {
 			_, e := srv.NonVotingDelegate(ctx, &sctypes.MsgNonVotingDelegate{Sender: h.Accts[o.U].Addr.String(), ValidatorAddress: w.valAddr(o.V),
 				Amount: sdk.Coin{Denom: denomNames[o.Dn], Amount: sdkmath.NewIntFromBigInt(o.Amt)}})
 			return e
@@ -167,7 +167,7 @@ func (w *world) apply(o op) outcome {
 		case o.Rcp == -1:
 			rcp = "sunrise1notanaddress"
 		}
-		err = apph.Tx(h.Ctx(), func(ctx sdk.Context) error {
+		err = apph.Tx(w.msgCtx(), func(ctx sdk.Context) error {
 			r, e := srv.NonVotingUndelegate(ctx, &sctypes.MsgNonVotingUndelegate{Sender: h.Accts[o.U].Addr.String(), ValidatorAddress: w.valAddr(o.V),
 				Amount: sdk.Coin{Denom: denomNames[o.Dn], Amount: sdkmath.NewIntFromBigInt(o.Amt)}, Recipient: rcp})
 			if e == nil {
@@ -177,7 +177,7 @@ func (w *world) apply(o op) outcome {
 		})
 	case kSend:
 		bsrv := bankkeeper.NewMsgServerImpl(h.App.BankKeeper)
-		err = apph.Tx(h.Ctx(), func(ctx sdk.Context) error {
+		err = apph.Tx(w.msgCtx(), func(ctx sdk.Context) error {
 			_, e := bsrv.Send(ctx, &banktypes.MsgSend{FromAddress: h.Accts[o.U].Addr.String(), ToAddress: h.Accts[o.U2].Addr.String(),
 				Amount: sdk.Coins{sdk.Coin{Denom: w.shares[o.V], Amount: sdkmath.NewIntFromBigInt(o.Amt)}}})
 			return e
